@@ -177,6 +177,7 @@ pub fn shape_case(kind: ShapeKind, k: usize, del: u32, ins: u32, touch: u32, var
         cfg: Cfg::default(),
         fresh_handles: false,
         txs,
+        dance: 0,
     }
 }
 
